@@ -110,11 +110,17 @@ def newRec (d idx : Nat) (parent : Option Id) (t : NType) (key : Option Bytes) (
   { parent := parent, data := some d, b0 := idx, b1 := 0, type := t, key := key, dirty := false,
     children := if t.isContainer then some [] else none, index := index }
 
+/-- the `index` a new child of `parent` receives -/
+def childIndex (h : Heap) (parent : Option Nat) : Option Nat :=
+  match parent with
+  | some q => if h.isArray q then some (h.nchildren q) else none
+  | none => none
+
 structure NewNodeFull (h : Heap) (d idx : Nat) (parent : Option Nat) (t : NType) (key : Option Bytes) (h' : Heap) (id : Nat) : Prop where
   grown : Grown h h' parent
   id_eq : id = h.size
   size_eq : h'.size = h.size + 1
-  node : h'.get id = newRec d idx parent t key (match parent with | some q => if h.isArray q then some (h.nchildren q) else none | none => none)
+  node : h'.get id = newRec d idx parent t key (childIndex h parent)
   kids : ∀ q : Nat, parent = some q → (h'.get q).children =
     some ((h.childMap q).insert (if h.isArray q then itoa (h.nchildren q) else key.getD []) id)
 
@@ -131,7 +137,7 @@ theorem newNode_full (h : Heap) (d idx : Nat) (rest : Bytes) (parent : Option Na
     have e2 := congrArg Prod.snd hn
     simp only [alloc_id] at e1 e2
     subst e1; subst e2
-    refine ⟨⟨by simp, hspec.ord, ?_, ?_, ?_⟩, rfl, by simp, by simp [get_alloc, newRec], ?_⟩
+    refine ⟨⟨by simp, hspec.ord, ?_, ?_, ?_⟩, rfl, by simp, by simp [get_alloc, newRec, childIndex], ?_⟩
     · intro n hn _; simp [hn]; exact EqModParent.rfl' _
     · intro n hn _; simp [hn]
     · intro q hq; cases hq
@@ -156,7 +162,7 @@ theorem newNode_full (h : Heap) (d idx : Nat) (rest : Bytes) (parent : Option Na
         cases hq
         have : p < h.size + 1 := by omega
         simp [get_modify, get_alloc, Nat.ne_of_lt hp, this, EqModChildren]
-      · simp [get_modify, get_alloc, hne, newRec, ha]
+      · simp [get_modify, get_alloc, hne, newRec, ha, childIndex]
       · intro q hq; cases hq
         have : p < h.size + 1 := by omega
         simp [get_modify, get_alloc, Nat.ne_of_lt hp, this, ha, childMap]
@@ -206,7 +212,7 @@ theorem newNode_full (h : Heap) (d idx : Nat) (rest : Bytes) (parent : Option Na
               cases hq
               have : p < h.size + 1 := by omega
               simp [get_modify, get_alloc, Nat.ne_of_lt hp, this, EqModChildren, hop.symm]
-            · simp [get_modify, get_alloc, hne, hos.symm, newRec, ha']
+            · simp [get_modify, get_alloc, hne, hos.symm, newRec, ha', childIndex]
             · intro q hq; cases hq
               have : p < h.size + 1 := by omega
               simp [get_modify, get_alloc, Nat.ne_of_lt hp, this, ha', childMap, hop.symm]
@@ -222,7 +228,7 @@ theorem newNode_full (h : Heap) (d idx : Nat) (rest : Bytes) (parent : Option Na
               cases hq
               have : p < h.size + 1 := by omega
               simp [get_modify, get_alloc, Nat.ne_of_lt hp, this, EqModChildren]
-            · simp [get_modify, get_alloc, hne, newRec, ha']
+            · simp [get_modify, get_alloc, hne, newRec, ha', childIndex]
             · intro q hq; cases hq
               have : p < h.size + 1 := by omega
               simp [get_modify, get_alloc, Nat.ne_of_lt hp, this, ha', childMap]
